@@ -161,6 +161,12 @@ SYNTAX = [
     ("syntax.schema", {"schema": "type Query { a: Int \n"}),
     ("syntax.one_of_several_schema_files", {"schema_dir": {"a.graphql": "type Query { a: A }\n", "b.graphql": "type A { x: Int \n"}}),
     ("syntax.queries", {"queries": "query Q { a \n"}),
+    # files that are not GraphQL documents on their own although the concatenation of the directory would parse
+    ("syntax.schema_dir_definition_split_across_files", {"schema_dir": {"a.graphql": "type Query { a: Int b: B }\ntype B { x: Int\n",
+                                                                       "b.graphql": "}\n"}}),
+    ("syntax.schema_dir_comment_only_file", {"schema_dir": {"a.graphql": "type Query { a: Int }\n", "b.graphql": "# nothing here yet\n"}}),
+    ("syntax.queries_dir_definition_split_across_files", {"queries_dir": {"a.graphql": "query Q { a \n", "b.graphql": "}\n"}}),
+    ("syntax.queries_dir_comment_only_file", {"queries_dir": {"a.graphql": "query Q { a }\n", "b.graphql": "# todo\n"}}),
 ]
 DIR_STATES = ["absent", "empty", "previous_generation"]
 
@@ -212,7 +218,7 @@ def enumerate_cases(tier):
         yield from companions(label, "graphqlschema", edit, exc, needles)
     for label, spec in SYNTAX:
         yield from emit(label, "client", files=spec, exc="InvalidGraphqlSyntax", needles=[])
-        if "queries" not in spec:
+        if "queries" not in spec and "queries_dir" not in spec:
             yield from emit(label, "graphqlschema", files=spec, exc="InvalidGraphqlSyntax", needles=[])
     for label, sdl in INVALID_SCHEMAS:
         yield from emit(label, "client", files={"schema": sdl, "queries": "query Q { __typename }\n"}, exc=None, needles=[])
@@ -373,6 +379,12 @@ def run_case(case, scratch):
     if "queries" in files:
         with open(os.path.join(scratch, "queries.graphql"), "w") as fh:
             fh.write(files["queries"])
+    if "queries_dir" in files:
+        os.unlink(os.path.join(scratch, "queries.graphql"))
+        os.makedirs(os.path.join(scratch, "queries.graphql"))
+        for n, c in files["queries_dir"].items():
+            with open(os.path.join(scratch, "queries.graphql", n), "w") as fh:
+                fh.write(c)
     cfg = write_config(scratch, section, no_section=(case.get("edit") or {}).get("no_section", False), top_extra=case.get("top_extra"))
     before = snapshot(target)
     others_before = sorted(os.listdir(scratch))
